@@ -18,16 +18,21 @@ Release(s) == IF s.holder # 0 /\ ~Alive(s.hs[s.holder]) THEN [s EXCEPT !.holder 
 
 \* one complete API-level action; result [s, res]
 Act(s, a, h, p) ==
-    CASE a \in {"open", "openstats"} ->
+    CASE a \in {"open", "openstats", "openasync"} ->
             IF s.holder = 0
             THEN [s |-> [s EXCEPT !.holder = h,
-                                  !.hs[h] = [st |-> "open", p |-> p, cas |-> (a = "open"), clones |-> 0, stats |-> TRUE, wrote |-> TRUE]],
+                                  !.hs[h] = [st |-> "open", p |-> p, cas |-> (a # "openstats"), clones |-> 0, stats |-> TRUE, wrote |-> TRUE]],
                   res |-> "ok"]
             ELSE [s |-> [s EXCEPT !.hs[h] = IF h = s.holder THEN @ ELSE [NoHandle EXCEPT !.st = "failed", !.p = p]], res |-> "AlreadyOpened"]
       [] a = "clone" -> IF s.hs[h].cas THEN [s |-> [s EXCEPT !.hs[h].clones = @ + 1], res |-> "ok"] ELSE [s |-> s, res |-> "nohandle"]
       [] a = "dropclone" -> IF s.hs[h].clones > 0 THEN [s |-> Release([s EXCEPT !.hs[h].clones = @ - 1]), res |-> "ok"] ELSE [s |-> s, res |-> "nohandle"]
       [] a = "dropcas" -> IF s.hs[h].st = "open" THEN [s |-> Release([s EXCEPT !.hs[h].cas = FALSE]), res |-> "ok"] ELSE [s |-> s, res |-> "nohandle"]
       [] a = "drop" -> [s |-> Release([s EXCEPT !.hs[h] = NoHandle]), res |-> "ok"]
+      \* the owner drops its handle and opens again at once (repeatedly): it stays the owner
+      [] a = "cycle" -> IF s.holder = h \/ s.holder = 0
+                        THEN [s |-> [s EXCEPT !.holder = h, !.hs[h] = [st |-> "open", p |-> p, cas |-> TRUE, clones |-> 0, stats |-> TRUE, wrote |-> TRUE]], res |-> "ok"]
+                        ELSE [s |-> s, res |-> "AlreadyOpened"]
+      [] a = "spawn" -> [s |-> s, res |-> "ok"]      \* a grandchild process: no handle, must not keep the lock alive
       [] a = "put" -> IF s.hs[h].cas \/ s.hs[h].clones > 0 THEN [s |-> s, res |-> "ok"] ELSE [s |-> s, res |-> "nohandle"]
       [] a = "kill" -> [s |-> Release([s EXCEPT !.hs = [x \in Handles |-> IF s.hs[x].p = p THEN NoHandle ELSE s.hs[x]]]), res |-> "ok"]
 
